@@ -94,7 +94,14 @@ def prov(fn, e, depth=6, outptr=None):
         elif nm in ("get", "operator->") and "obj" in e:
             p = Prov("obj", canon(e["obj"]), 0)
         else:
-            p = Prov("call", callee_name(e), 0)
+            # a one-line pass-through helper (`asHeader(p)` = `reinterpret_cast<const H*>(p)`) stands for its expression
+            y = facts.inline_accessor(getattr(fn, "fb", None), e) if depth > 0 else None
+            if y is not None and (strip(e).get("t") or {}).get("k") == "ptr":
+                p = prov(fn, y, depth - 1, outptr)
+                if p.kind == "unknown":
+                    p = Prov("call", callee_name(e), 0)
+            else:
+                p = Prov("call", callee_name(e), 0)
     elif k == "un" and e.get("op") == "&":
         t = strip_all_casts(e["e"])
         if t.get("k") == "ref":
@@ -256,6 +263,9 @@ def run(ctx):
     res.rule("C02-R6", "nullable result dereferenced: the result of a function that can return null is tested before it is dereferenced")
     res.rule("C02-R7", "ownership: Packet, Payload and derived classes hold no pointer/reference/view members; the (type,data,size) constructors copy the bytes")
     res.rule("C02-R8", "the input is read-only: input parameters are pointer-to-const; a pointer obtained by casting const away is never written through")
+    res.rule("C02-R9", "reassembly-entry invariant: the reassembly buffer is viewed as a message header (getHeader, getPacket) only in entries built from "
+                        "a first segment — a default-constructed entry (inserted by operator[]) never accepts a segment (C17-R1L: stored version 0 never "
+                        "matches, or its segment state admits no continuation) and the buffer is sized only by the constructor and by growth in addSegment (C17-R2)")
     res.assumptions += ["libstdc++ containers are memory-safe when used within their preconditions", "callers pass a readable buffer of `size` bytes",
                         "the write side of the payload builders used by the TECMP converter (arithmetic sufficiency of the computed size) is C13's and is not decided"]
     res.not_decided += ["absence of every possible out-of-bounds access (no sound C++ memory-safety prover in the image): constructs of a kind not in the inventory are exit 2",
@@ -275,6 +285,11 @@ def run(ctx):
     rule_nullable(eng)
     rule_ownership(eng)
     rule_readonly(eng)
+    from rules import decoder_rules as D
+    dm = D.DecodeModel(fb)
+    D.rule_default_entry_rejected(res, "C02-R9", dm)
+    D.rule_buffer_growth(res, "C02-R9", dm)
+    res.floor("C02-R9", 4)
     res.floor("C02-R1", 12)
     res.floor("C02-R1p", 15)
     res.floor("C02-R2", 12)
@@ -915,6 +930,21 @@ def rule_pairs(eng, ctx):
                             ok = okv and bool(hg) and hg[0] in bounded
                             why = "view (%s(), %s()) of a %s object that is valid only if %s" % (pair[0], pair[1], cls, text) if ok else \
                                 "view (%s(), %s()) of a %s: its constructor does not guarantee %s() <= size - sizeof(Header) for valid objects (%s)" % (pair[0], pair[1], cls, pair[1], text)
+                            if ok:
+                                # the bound speaks about the bytes behind the header: the pointer getter must not point further in
+                                from cmpverif.views import pointer_rows
+                                ptrf = fb.fn_opt(cls + "::" + pair[0], 0, True)
+                                hs = fb.record(typed[cls])["size"]
+                                rows = pointer_rows(fb, ptrf) if ptrf is not None else []
+                                if not rows:
+                                    raise Broken("%s::%s returns no pointer value the analysis can read" % (cls, pair[0]))
+                                for _, v, form in rows:
+                                    if form is None or sorted(k2 for k2 in form if k2 != 1 and form[k2]) != ["D"] or form["D"] != 1:
+                                        raise Broken("%s::%s: returned pointer `%s` is not payload data() + constant" % (cls, pair[0], canon(v)[:60]))
+                                    if not 0 <= form.get(1, 0) <= hs:
+                                        ok = False
+                                        why = "%s() returns data() + %d but %s() is bounded only by size - %d: the copy reads %d byte(s) behind the payload" % \
+                                            (pair[0], form.get(1, 0), pair[1], hs, form.get(1, 0) - hs)
                 elif pr.kind == "localobj":
                     ok = const_value(sa) is not None
                     why = "address of a local with a constant length"
